@@ -7,8 +7,8 @@ use once_cell::sync::OnceCell;
 use regex::{Regex, RegexSet};
 use sqlparser::ast::Statement::{Delete, Insert, Query, StartTransaction, Update};
 use sqlparser::ast::{
-    Assignment, BinaryOperator, Expr, Ident, JoinConstraint, JoinOperator, SetExpr, Statement,
-    TableFactor, TableWithJoins, Value,
+    Assignment, BinaryOperator, Expr, FromTable, Ident, JoinConstraint, JoinOperator, SetExpr,
+    Statement, TableFactor, TableWithJoins, Value,
 };
 use sqlparser::dialect::PostgreSqlDialect;
 use sqlparser::parser::Parser;
@@ -693,6 +693,11 @@ impl QueryRouter {
 
                 // Multi-tables delete are not supported in postgres.
                 assert!(d.tables.is_empty());
+
+                // The table the rows are deleted from: `WHERE id = ..` names its sharding key.
+                let (FromTable::WithFromKeyword(from_tables)
+                | FromTable::WithoutKeyword(from_tables)) = &d.from;
+                Self::process_tables_with_join(from_tables, &mut exprs, &mut table_names);
 
                 if let Some(using_tbl_with_join) = &d.using {
                     Self::process_tables_with_join(
